@@ -407,7 +407,7 @@ def interleaved(run_a, run_b, only_at=None):
 
     def tracer(frame, event, arg):
         fn = frame.f_code.co_filename.replace(os.sep, "/")
-        return local if "/pyscsi/" in fn and "/verif/" not in fn else None
+        return local if "/pyscsi/" in fn and not fn.startswith(VERIF_DIR.replace(os.sep, "/")) else None
 
     def thread_a():
         sys.settrace(tracer)
